@@ -266,9 +266,12 @@ impl Model for M {
         }
         for sn in &m.needs {
           comparisons += 1;
+          // Strict reading (see DESIGN.md 5.4): this implementation never lets History depth force out a sample
+          // that a matched reliable reader still has to acknowledge, so a needed sample leaving the history is
+          // reported whatever the depth.
           let newer = written.keys().filter(|s| *s > sn).count();
-          if !history.contains(sn) && newer < self.limit() && violation.is_none() {
-            violation = viol("dropped-needed", format!("after {ev:?}: sample {sn} is no longer in the history although matched reliable reader {r} (acknowledged everything below {}) has not acknowledged it and only {newer} newer samples exist (History limit {})", m.base, self.limit()));
+          if !history.contains(sn) && violation.is_none() {
+            violation = viol("dropped-needed", format!("after {ev:?}: sample {sn} is no longer in the history although matched reliable reader {r} (acknowledged everything below {}) has not acknowledged it ({newer} newer samples exist, History limit {})", m.base, self.limit()));
           }
         }
       }
@@ -334,6 +337,8 @@ impl Model for M {
             if last > b {
               next.push(Ev::Ack(*r, b, vec![b, last]));
             }
+            // an over-reaching request: the last written sample and one beyond it
+            next.push(Ev::Ack(*r, b, vec![last, last + 1]));
           }
         }
       }
@@ -477,7 +482,7 @@ pub fn run(tier: &str) -> i32 {
     "Puppet readers are truthful: ACKNACK bases never decrease and never exceed last+1 (C03 is the property about that)".into(),
     "Timers are modelled: SendRepairData(r) is offered exactly while rp.repair_mode, SendRepairFrags(r) exactly while fragments are requested (the re-arm rules of Writer::handle_timed_event), heartbeat tick and cache cleaning at any time".into(),
     "History limit: unspecified -> 1, KeepLast(d) -> d, KeepAll -> the writer's resource limit of 32 (writer.rs handle_cache_cleaning)".into(),
-    "A needed sample may leave the history only when at least `limit` newer samples exist".into(),
+    "Strict retention: a sample a matched reliable reader has not acknowledged must stay in the history whatever the History depth (stronger than the statement's letter, which would let depth force it out; this implementation never does)".into(),
   ];
   rep.finish()
 }
